@@ -7,6 +7,30 @@ TRUST = ("Trusted base: the independent reference implementations in /verif/inte
          "the kernel's page protection. amd64 assembly and portable Go only; no arm hardware.")
 
 CHECKS = {
+ "C01": dict(cat="exploration", tech="differential runtime monitoring: every compressor entry point (package function, fresh, long-lived reused object incl. failed calls in its history; fast and HC at 17 depths) on a class-structured seeded source stream, decoded by the library and by an independent reference decoder",
+   text="Real compress/decompress executions over sources built to hit the anchored mechanisms (window edge 65534..65537 with dense runs so the scan reaches it, 16-bit table aliasing beyond 64 KiB, multi-byte length codes, tails around the 14-byte limit, all strings over {a,b} up to length 12/17, sizes to 4 MiB); the evidence counts what the emitted blocks actually contained (offset 65535, matches after 64 KiB, multi-byte lengths). Held on the executions observed; inputs are sampled.",
+   ref="6/C01"),
+ "C10": dict(cat="exploration", tech="online oracle: independent strict LZ4 block validator over every block any compressor returns, for several destination sizes (partial successes)",
+   text="Same source stream as C01; every returned block with n>0 is parsed sequence by sequence by an independent validator that enforces offset range, literals-only final sequence, 5 trailing literals, last match >= 12 bytes from the end, and decoding to the source. Counters show how many validated blocks ended with exactly 5 literals / a last match exactly 12 bytes before the end.",
+   ref="6/C10"),
+ "C11": dict(cat="exploration", tech="runtime monitors around the real compressors: canary-filled spare capacity, guard-page-terminated destinations, contract assertions on (n, err), reference decode of every positive result; destination length swept exhaustively for small bounds",
+   text="For each source every destination length 0..bound+3 (bound <= 400, thorough 3000) or a boundary list plus seeded lengths just below the achievable size is executed with the destination as a sub-slice of a canary buffer and ending at an unmapped page; panic, n>len, canary change, zero/err at >= bound, err with n != 0 and incomplete blocks are violations.",
+   ref="6/C11"),
+ "C03": dict(cat="exploration", tech="memory-safety monitoring of the real decoders (amd64 assembly and portable, thorough also -asan and checkptr builds): mmap/mprotect guard pages on both sides with read-only inputs and SetPanicOnFault, canaries in spare capacity, child-process isolation",
+   text="About 8M decode executions (quick) over the full block-grammar class product placed 0..49 bytes from the end of src/dst, valid blocks into every destination length, mutants, token-biased random bytes and nil/empty slices, each in 4 memory placements. A fault at a guard page is attributed to the buffer and side. Guard pages see only accesses leaving the buffer on the side next to the unmapped page (both alignments are run); the assembly is invisible to asan/checkptr, so for it the guard pages and canaries are the only sanitizer.",
+   ref="6/C03"),
+ "C04": dict(cat="exploration", tech="three-valued differential oracle: independent byte-at-a-time reference block decoder (strict / lenient / must-reject) against both real decoders on the grammar class product with dictionaries, plus placement/prior-content independence",
+   text="Every (literal class x offset class x match class x distance-to-end x dictionary) point of the quantifier is generated and executed against the assembly and the portable decoder; accepted bytes must equal the reference's, must-reject classes must be rejected, strictly valid blocks that fit must be accepted, and the result must not change with the destination's prior contents or placement.",
+   ref="6/C04"),
+ "C12": dict(cat="exploration", tech="offline join of recorded result logs: the default (assembly) and the noasm build execute the same seeded triple stream and log (ok/err, n, hash of dst[:n]); records are compared by (case, triple)",
+   text="Two builds of the same worker, same seed, ~2M joined records (quick); any differing outcome, length or byte hash is a violation. amd64 assembly vs portable Go only.",
+   ref="6/C12"),
+ "C02": dict(cat="exploration", tech="round-trip monitoring through the real Writer and Reader over the full option product (256 configurations x rotated/all levels) x input classes x 4 delivery modes x 4 reader concurrencies x 4 read modes, with budgeted sinks/sources (runaway-loop detector)",
+   text="Every accepted option combination is executed; inputs sit on block boundaries and include crafted zero-checksum contents; each emitted stream is decoded by fresh Readers through WriteTo and Read with buffered/direct/mixed buffer sequences. Held on the executions observed (about 50k reader runs quick).",
+   ref="6/C02"),
+ "C09": dict(cat="exploration", tech="online oracle: independent LZ4 frame parser + strict-writer conformance rules (block checksum over stored bytes per the specification) on every stream the real Writer emits",
+   text="Same write stream as C02; the sink bytes are parsed by the independent implementation (magic, descriptor bits, header checksum, block size limits, strict block validity, block checksum domain, end mark, content checksum, no trailing bytes, legacy layout) and compared with the configuration and the input. Required observations: stored blocks, empty stored block, zero-valued block and content checksums, multi-block frames.",
+   ref="6/C09"),
  "C13": dict(cat="exploration", tech="differential runtime monitoring against an independent XXH32 (exported under the verif tag): exhaustive carry-buffer states, seeded random partitions, 2^32 boundary via state copies",
    text="Every carry-buffer state (0..15 buffered bytes x next-write length class x following write 0..33, fresh and after a stripe) is driven through the real streaming object with Sum32/Sum probes after each write, all one-shot lengths 0..1024 at 4 alignments, seeded random partitions up to 8 MiB, and every total length 2^32-16..2^32+16 (thorough: one-shot on real 4 GiB buffers and the Writer's content-checksum trailer for 2^32+5 bytes). Held-on-what-was-observed, not a proof; the state space of the 16-byte carry buffer is covered completely, content is sampled.",
    ref="6/C13"),
